@@ -22,5 +22,5 @@ def build(bin_step, py_step, miri_step, fuzz_step):
     S["C10"] = [py_step("gen_chain")]
     S["C17"] = [py_step("gen_reject")]
     S["C18"] = [py_step("gen_parser_method")]
-    S["C01"] = [bin_step("c01"), py_step("gen_const"), miri_step("c01")]
+    S["C01"] = [bin_step("c01"), bin_step("c11", prop="C01"), py_step("gen_const"), miri_step("c01"), miri_step("c11", tiers=("thorough",))]
     return S
